@@ -21,6 +21,7 @@ type Engine struct {
 	prog    *ssa.Program
 	pkg     *ssa.Package
 	repoDir string
+	verifDir string
 	noPos   token.Pos
 	tier    int
 	seed    int64
